@@ -4,6 +4,7 @@
 //!                                     renumberings, <n>/2 map-order shuffles, <n>/2 mixed variants and the orders of
 //!                                     loading dependent crates (all of them; for > 6 orders a sample of 2<n> unless `all-orders`)
 //!   cli gen-proto                     prints `proto` cases: one per capability protocol type (serde-reflection trace of the real type)
+//!   cli gen-syn <seed> <n>            prints `syn` cases: <n> synthetic crux-shaped crate sets (harness::clisyn) x {id, renum, shuf, mix}
 //!   cli run                           reads case lines, prints one observation line per case
 //!
 //! The REAL code under test is /repo/crux_cli/src/codegen (working tree), compiled into this binary by path: the
@@ -12,7 +13,8 @@
 //!
 //! case (reg)   : `reg <fixture> <variant> #x <registry of the ORIGINAL fixture by the real CLI> #d <description of the VARIANT>`
 //! case (proto) : `proto <fixture> <Type> #t <container traced from the real type> #d <description of the fixture>`
-//! observation  : `ok <registry>` (reg) / `ok <container>` | `missing` (proto) | `err <class>` | `panic <class>` | `nondet` | `invalid-order`
+//! case (syn)   : `syn syn<seed> <variant> #x <observation of the real CLI on the ORIGINAL synthetic set> #d <description of the VARIANT>`
+//! observation  : `ok <registry>` (reg) / `ok <container>` | `missing` (proto) | `err <class>` | `panic <class>` | `nondet`
 //! The description (what the Lean model computes from) is regenerated from the fixture JSON on every run; `run`
 //! rebuilds the variant from `<fixture> <variant>` alone, feeds the FULL transformed rustdoc JSON to the real CLI and
 //! checks that the description in the case is the one it derives itself (`stale-description` otherwise).
@@ -37,9 +39,11 @@ mod codegen {
     }
 
     /// The loop of `run` with the choice of the next crate (which `run` leaves to the iteration order of a hash
-    /// based relation: `next.pop()`) made by the caller. Same calls in the same sequence: `Filter::process`,
-    /// `Filter::get_crates`, `format`. Err(Left) = the order is not one `run` could take.
-    pub fn verif_run_ordered<F>(crate_name: &str, load: F, order: &[String]) -> std::result::Result<Result<Registry>, String>
+    /// based relation: `next.pop()`) made by the caller: of the crates pending at a step, the one that comes first in
+    /// `preference` is loaded (pending crates the preference does not list come last, by name). Same calls in the
+    /// same sequence as `run`: `Filter::process`, `Filter::get_crates`, `format`. Every order `run` can take is the
+    /// result of some preference; returns the order taken.
+    pub fn verif_run_ordered<F>(crate_name: &str, load: F, preference: &[String]) -> (Vec<String>, Result<Registry>)
     where
         F: Fn(&str) -> Result<Crate>,
     {
@@ -50,23 +54,21 @@ mod codegen {
         };
         let mut filter = Filter::default();
         if let Err(e) = go(&mut filter, crate_name) {
-            return Ok(Err(e));
+            return (previous, Err(e));
         }
         previous.push(crate_name.to_string());
-        for next in order {
-            let wanted = filter.get_crates();
-            if !wanted.contains(next) || previous.contains(next) {
-                return Err(format!("{next} is not pending"));
+        loop {
+            let mut pending: Vec<String> = filter.get_crates().into_iter().filter(|c| !previous.contains(c)).collect();
+            pending.sort();
+            pending.dedup();
+            let rank = |c: &String| preference.iter().position(|p| p == c).unwrap_or(usize::MAX);
+            let Some(next) = pending.into_iter().min_by_key(|c| (rank(c), c.clone())) else { break };
+            if let Err(e) = go(&mut filter, &next) {
+                return (previous, Err(e));
             }
-            if let Err(e) = go(&mut filter, next) {
-                return Ok(Err(e));
-            }
-            previous.push(next.clone());
+            previous.push(next);
         }
-        if filter.get_crates().iter().any(|c| !previous.contains(c)) {
-            return Err("incomplete".into());
-        }
-        Ok(Ok(format(filter.edge)))
+        (previous, Ok(format(filter.edge)))
     }
 
     pub fn verif_to_json(r: &Registry) -> serde_json::Value {
@@ -111,13 +113,41 @@ fn root_crate(fixture: &str) -> Option<&'static Crate> {
     Some(*m.entry(fixture.to_string()).or_insert_with(|| Box::leak(Box::new(parse_crate(&format!("{FIXDIR}/{fixture}/rustdoc.json"))))))
 }
 
+/// synthetic fixtures are called `syn<seed>` (harness::clisyn)
+fn syn_crates(fixture: &str) -> Option<&'static Vec<(String, Crate)>> {
+    static CACHE: OnceLock<Mutex<HashMap<String, &'static Vec<(String, Crate)>>>> = OnceLock::new();
+    let seed: u64 = fixture.strip_prefix("syn")?.parse().ok()?;
+    let mut m = CACHE.get_or_init(Default::default).lock().unwrap();
+    Some(*m.entry(fixture.to_string()).or_insert_with(|| {
+        let cs: Vec<(String, Crate)> = harness::clisyn::crates(fixture, seed)
+            .into_iter()
+            .map(|(n, v)| {
+                let c = serde_json::from_value(v).unwrap_or_else(|e| panic!("synthetic crate {n} of {fixture}: {e}"));
+                (n, c)
+            })
+            .collect();
+        Box::leak(Box::new(cs))
+    }))
+}
+
 /// the crate a loader returns for `name` while working on `fixture` (as the repository's tests.rs does)
 fn original(fixture: &str, name: &str) -> Option<&'static Crate> {
+    if fixture.starts_with("syn") {
+        return syn_crates(fixture)?.iter().find(|(n, _)| n == name).map(|(_, c)| c);
+    }
     if name == fixture {
         root_crate(fixture)
     } else {
         lib_crate(name)
     }
+}
+
+/// every crate other than the root a loader has for the fixture
+fn available(fixture: &str) -> Vec<String> {
+    if fixture.starts_with("syn") {
+        return syn_crates(fixture).map_or(vec![], |cs| cs.iter().map(|(n, _)| n.clone()).filter(|n| n != fixture).collect());
+    }
+    LIBS.iter().map(|s| s.to_string()).collect()
 }
 
 // ---------------------------------------------------------------- consistent renumbering of item ids
@@ -426,11 +456,10 @@ fn all_ids(c: &Crate) -> BTreeSet<u32> {
 }
 
 /// a random injective map on the ids of the crate
-fn random_id_map(c: &Crate, rng: &mut Rng) -> HashMap<u32, u32> {
+fn random_id_map(c: &Crate, regime: u64, rng: &mut Rng) -> HashMap<u32, u32> {
     let ids: Vec<u32> = all_ids(c).into_iter().collect();
     let n = ids.len() as u64;
     // three regimes: a permutation of the ids in use; a sparse range; the whole u32 range incl. its ends
-    let regime = rng.below(3);
     let mut used = BTreeSet::new();
     let mut map = HashMap::new();
     match regime {
@@ -549,11 +578,11 @@ fn shuffle<T>(v: &mut [T], rng: &mut Rng) {
     }
 }
 
-fn transform(c: &Crate, renum: bool, shuf: bool, rng: &mut Rng) -> Crate {
+fn transform(c: &Crate, renum: bool, shuf: bool, regime: u64, rng: &mut Rng) -> Crate {
     if !renum && !shuf {
         return c.clone();
     }
-    let map = if renum { Some(random_id_map(c, rng)) } else { None };
+    let map = if renum { Some(random_id_map(c, regime, rng)) } else { None };
     let f = |i: u32| map.as_ref().map_or(i, |m| *m.get(&i).expect("id seen in the first pass"));
     let v = to_value_mapped(c, &f);
     let text = if shuf {
@@ -566,26 +595,32 @@ fn transform(c: &Crate, renum: bool, shuf: bool, rng: &mut Rng) -> Crate {
     serde_json::from_str(&text).expect("transformed description parses")
 }
 
-/// dependent crates the real CLI loads for the fixture (observed on the original, sorted by name)
+/// dependent crates the real CLI loads for the fixture (observed on the original, sorted by name); every available
+/// crate when the run on the original does not complete (so that the description does not depend on how far it got)
 fn deps_of(fixture: &str) -> Vec<String> {
     static CACHE: OnceLock<Mutex<HashMap<String, Vec<String>>>> = OnceLock::new();
-    let mut m = CACHE.get_or_init(Default::default).lock().unwrap();
-    m.entry(fixture.to_string())
-        .or_insert_with(|| {
-            let asked = Mutex::new(BTreeSet::new());
-            let _ = catch_unwind(AssertUnwindSafe(|| {
-                codegen::verif_run(fixture, |name| {
-                    asked.lock().unwrap().insert(name.to_string());
-                    original(fixture, name).cloned().ok_or_else(|| anyhow::anyhow!("unknown crate {name}"))
-                })
-            }));
-            asked.into_inner().unwrap().into_iter().filter(|n| n != fixture && original(fixture, n).is_some()).collect()
+    if let Some(v) = CACHE.get_or_init(Default::default).lock().unwrap().get(fixture) {
+        return v.clone();
+    }
+    let asked = Mutex::new(BTreeSet::new());
+    let r = catch_unwind(AssertUnwindSafe(|| {
+        codegen::verif_run(fixture, |name| {
+            asked.lock().unwrap().insert(name.to_string());
+            original(fixture, name).cloned().ok_or_else(|| anyhow::anyhow!("unknown crate {name}"))
         })
-        .clone()
+    }));
+    let mut v: Vec<String> = if matches!(r, Ok(Ok(_))) {
+        asked.into_inner().unwrap().into_iter().filter(|n| n != fixture && original(fixture, n).is_some()).collect()
+    } else {
+        available(fixture)
+    };
+    v.sort();
+    CACHE.get_or_init(Default::default).lock().unwrap().insert(fixture.to_string(), v.clone());
+    v
 }
 
 fn build(fixture: &str, variant: &Variant) -> Option<Built> {
-    root_crate(fixture)?;
+    original(fixture, fixture)?;
     let deps = deps_of(fixture);
     let (renum, shuf, seed) = match variant {
         Variant::Id | Variant::Order(_) => (false, false, 0),
@@ -617,8 +652,9 @@ fn build(fixture: &str, variant: &Variant) -> Option<Built> {
     let mut names = vec![fixture.to_string()];
     names.extend(dep_order);
     let mut crates = HashMap::new();
-    for n in &names {
-        crates.insert(n.clone(), transform(original(fixture, n)?, renum, shuf, &mut rng));
+    for (k, n) in names.iter().enumerate() {
+        // the renumbering regime cycles with the seed and the crate, so that a few seeds cover all three for every crate
+        crates.insert(n.clone(), transform(original(fixture, n)?, renum, shuf, (seed + k as u64) % 3, &mut rng));
     }
     Some(Built { names, crates, forced, seed: rng.next() })
 }
@@ -1066,14 +1102,13 @@ fn panic_class(p: &(dyn std::any::Any + Send)) -> String {
 fn real_once(fixture: &str, b: &Built, forced: Option<&[String]>) -> Result<Value, String> {
     let load = |name: &str| b.crates.get(name).cloned().ok_or_else(|| anyhow::anyhow!("unknown crate {name}"));
     let r = catch_unwind(AssertUnwindSafe(|| match forced {
-        None => Ok(codegen::verif_run(fixture, load)),
-        Some(order) => codegen::verif_run_ordered(fixture, load, order),
+        None => codegen::verif_run(fixture, load),
+        Some(order) => codegen::verif_run_ordered(fixture, load, order).1,
     }));
     match r {
         Err(p) => Err(format!("panic {}", panic_class(&*p))),
-        Ok(Err(_)) => Err("invalid-order".into()),
-        Ok(Ok(Err(_))) => Err("err load".into()),
-        Ok(Ok(Ok(reg))) => Ok(codegen::verif_to_json(&reg)),
+        Ok(Err(_)) => Err("err load".into()),
+        Ok(Ok(reg)) => Ok(codegen::verif_to_json(&reg)),
     }
 }
 
@@ -1100,9 +1135,6 @@ fn observe(fixture: &str, b: &Built) -> String {
             Ok(v) => registry_tok(&v).map_or_else(|e| format!("err print {}", esc(&e)), |s| format!("ok {s}")),
             Err(o) => o,
         });
-    }
-    if outs.iter().any(|o| o == "invalid-order") {
-        return "invalid-order".into();
     }
     if outs.iter().all(|o| *o == outs[0]) {
         outs.swap_remove(0)
@@ -1242,6 +1274,31 @@ fn gen(seed: u64, n: u64, all_orders: bool) {
     }
 }
 
+/// `syn` cases: <n> synthetic crate sets (harness::clisyn), each as bundled (`id`), renumbered, shuffled, mixed and with
+/// its dependent crate order forced; `#x` carries the whole observation of the real CLI on the original
+fn gen_syn(seed: u64, n: u64) {
+    let mut rng = Rng::new(seed ^ 0x5EED);
+    let mut jobs: Vec<(String, Variant)> = vec![];
+    for k in 0..n {
+        let f = format!("syn{}", seed * 1_000_000 + k);
+        jobs.push((f.clone(), Variant::Id));
+        jobs.push((f.clone(), Variant::Renum(rng.below(1 << 40))));
+        jobs.push((f.clone(), Variant::Shuf(rng.below(1 << 40))));
+        jobs.push((f.clone(), Variant::Mix(rng.below(1 << 40))));
+    }
+    let lines = par_map(&jobs, |(f, v)| {
+        let expected = observe(f, &build(f, &Variant::Id).expect("synthetic fixture"));
+        let b = build(f, v).expect("synthetic fixture");
+        let d = describe(&b, v).unwrap_or_else(|e| format!("bad-description {}", esc(&e)));
+        format!("syn {f} {} #x {expected} {d}", v.show())
+    });
+    let out = std::io::stdout();
+    let mut out = out.lock();
+    for l in lines {
+        writeln!(out, "{l}").unwrap();
+    }
+}
+
 fn gen_proto() {
     let tr = traced().as_object().unwrap();
     // the registry of each original fixture, and its description
@@ -1270,7 +1327,7 @@ fn run_case(line: &str) -> String {
     let (mode, fixture, what, rest) = (it.next().unwrap_or(""), it.next().unwrap_or(""), it.next().unwrap_or(""), it.next().unwrap_or(""));
     let desc_of = |rest: &str| rest.find(" #d ").map(|p| rest[p + 1..].to_string());
     match mode {
-        "reg" => {
+        "reg" | "syn" => {
             let Some(variant) = Variant::parse(what) else { return "bad-case".into() };
             let Some(b) = build(fixture, &variant) else { return "bad-case".into() };
             match (describe(&b, &variant), desc_of(rest)) {
@@ -1314,6 +1371,24 @@ fn main() {
             gen(seed, n, args.get(4).map(|s| s.as_str()) == Some("all-orders"));
         }
         Some("gen-proto") => gen_proto(),
+        Some("orders") => {
+            // the distinct crate orders the preferences `order:<perm>` lead to, per fixture (for the evidence text)
+            for f in FIXTURES {
+                let deps = deps_of(f);
+                let mut taken = BTreeSet::new();
+                for p in perms(deps.len()) {
+                    let pref: Vec<String> = p.iter().map(|i| deps[*i].clone()).collect();
+                    let (order, _) = codegen::verif_run_ordered(f, |name| original(f, name).cloned().ok_or_else(|| anyhow::anyhow!("unknown crate {name}")), &pref);
+                    taken.insert(order.join(","));
+                }
+                println!("{f}: {} dependent crates, {} permutations, {} distinct orders taken", deps.len(), perms(deps.len()).len(), taken.len());
+            }
+        }
+        Some("gen-syn") => {
+            let seed = args.get(2).and_then(|s| s.parse().ok()).unwrap_or(1);
+            let n = args.get(3).and_then(|s| s.parse().ok()).unwrap_or(50);
+            gen_syn(seed, n);
+        }
         Some("run") => {
             let lines: Vec<String> = std::io::stdin().lock().lines().map(|l| l.unwrap()).collect();
             let outs = par_map(&lines, |l| catch_unwind(AssertUnwindSafe(|| run_case(l))).unwrap_or_else(|p| format!("panic harness-{}", panic_class(&*p))));
